@@ -10,6 +10,7 @@ import (
 	"strings"
 
 	jschema "github.com/jsightapi/jsight-schema-go-library"
+	jbytes "github.com/jsightapi/jsight-schema-go-library/bytes"
 	"github.com/jsightapi/jsight-schema-go-library/formats/json"
 	"github.com/jsightapi/jsight-schema-go-library/fs"
 	"github.com/jsightapi/jsight-schema-go-library/kit"
@@ -230,7 +231,11 @@ func BuildWithBuffer(sp Spec, fromBytes bool) (s *njs.Schema, buf []byte, o Obs)
 	for i, t := range sp.Types {
 		var ts jschema.Schema
 		if t.Regex {
-			ts = regex.New(t.Name, t.Text)
+			if len(t.Text)%2 == 0 {
+				ts = regex.FromFile(fs.NewFile(t.Name, []byte(t.Text)))
+			} else {
+				ts = regex.New(t.Name, t.Text)
+			}
 		} else {
 			var topts []njs.Option
 			if sp.OptKeys {
@@ -240,7 +245,16 @@ func BuildWithBuffer(sp Spec, fromBytes bool) (s *njs.Schema, buf []byte, o Obs)
 			if sp.UnnamedFiles {
 				fname = ""
 			}
-			tj := njs.New(fname, t.Text, topts...)
+			var tj *njs.Schema
+			switch len(t.Text) % 3 {
+			case 0:
+				tj = njs.New(fname, t.Text, topts...)
+			case 1:
+				// the other constructors and content types of the public API
+				tj = njs.FromFile(fs.NewFile(fname, jbytes.Bytes(t.Text)), topts...)
+			default:
+				tj = njs.New(fname, []byte(t.Text), topts...)
+			}
 			rules := t.Rules
 			if rules == nil {
 				rules = sp.Rules
@@ -351,12 +365,20 @@ func CheckObs(s *njs.Schema) Obs {
 	return first
 }
 
-// Doc creates a JSON document.
+// Doc creates a JSON document (through New or FromFile, from a string or from bytes: a function
+// of the text length).
 func Doc(text string, trailing bool) jschema.Document {
+	var opts []json.Option
 	if trailing {
-		return json.New("doc", text, json.AllowTrailingNonSpaceCharacters())
+		opts = append(opts, json.AllowTrailingNonSpaceCharacters())
 	}
-	return json.New("doc", text)
+	switch len(text) % 3 {
+	case 1:
+		return json.FromFile(fs.NewFile("doc", []byte(text)), opts...)
+	case 2:
+		return json.New("doc", jbytes.Bytes(text), opts...)
+	}
+	return json.New("doc", text, opts...)
 }
 
 // ValidateOn validates one document text with an already built schema (own Document).
